@@ -865,6 +865,8 @@ parseattachments(struct message *msg, struct message *parent, int depth)
 	struct message *attach;
 	const char *b, *beg, *body, *end, *type;
 	char *boundary;
+	size_t msgidx = 0;
+	int isattach = msg != parent;
 	int term;
 
 	if (depth > 4) {
@@ -886,6 +888,13 @@ parseattachments(struct message *msg, struct message *parent, int depth)
 
 	log_debug("%s: boundary=%s, depth=%d\n", __func__, boundary, depth);
 
+	/*
+	 * A nested attachment resides in the attachments vector of the parent
+	 * which might be reallocated while adding new attachments.
+	 */
+	if (isattach)
+		msgidx = (size_t)(msg - parent->me_attachments);
+
 	body = msg->me_body;
 	beg = end = NULL;
 	term = 0;
@@ -906,6 +915,8 @@ parseattachments(struct message *msg, struct message *parent, int depth)
 		attach = VECTOR_CALLOC(parent->me_attachments);
 		if (attach == NULL)
 			err(1, NULL);
+		if (isattach)
+			msg = &parent->me_attachments[msgidx];
 		attach->me_fd = -1;
 		attach->me_flags = MESSAGE_FLAG_ATTACHMENT;
 		len = (size_t)(end - beg);
